@@ -288,7 +288,7 @@ def do_step(L, d, op, rec=None, probe=False):
         L.learn(ctx, la, reward, lp, **kw)
     except Exception as e:   # noqa
         if rec is None: raise HarnessError(f'replay diverged: learn raised {e!r}')
-        rec.v(K(f'learn raises {where_raised(e)}', f'learn mode {mode}'), f'learn({ctx!r}, {la!r}, {reward!r}, {lp!r}) after predict -> ({a!r}, {p!r}) raised {e!r}'); return False
+        rec.v(K(f'learn raises {where_raised(e)}'), f'learn({ctx!r}, {la!r}, {reward!r}, {lp!r}) after predict -> ({a!r}, {p!r}) raised {e!r}'); return False
 
     if corral and rec is not None:
         for name in ('_ps', '_p_bars'):
@@ -314,7 +314,7 @@ def checked_step(L, d, op, probe=False):
     try:
         do_step(L, d, op, rec, probe)
     except StepTimeout:
-        rec.v((family(d), 'step does not return within the horizon', f'learn mode {op[2]}'),
+        rec.v((family(d), 'step does not return within the horizon', ''),
               f'predict/learn on {op!r} used more than {STEP_CPU_HORIZON}s of CPU time')
     finally:
         signal.setitimer(signal.ITIMER_VIRTUAL, 0)
@@ -357,13 +357,16 @@ class C16(Check):
     LEVEL = 'model_checking'
     ENGINE = 'HIST'
     RULE = ('cases = (learner configuration, step alphabet, depth): Random, Fixed (6 pmfs), BanditEpsilon (eps 0, .1, 1), BanditUCB, '
-            'Misguided(BanditEpsilon|BanditUCB, reward flipped / shifted below 0), Corral (3 base sets x eta {.075,1} x T {inf,4} x '
-            '{importance, off-policy}), seeds {1,2}; step = (action set in {[1,2],[1,2,3],["a"],dense pair,sparse pair}, reward in '
-            '{0,.5,1}, learn mode in {own prediction, next action logged with prob .5, (Corral) next action logged with prob .01}); '
-            'every history up to the depth is explored breadth first on the real learner (replayed from scratch), merging histories '
-            'only on equal complete canonical learner state incl. all rng positions; fixed action set: depth 4 (thorough 6), changing '
-            'action sets: depth 3 (thorough 4). A distinct state is non-trivial when the step reaching it changed the learner state '
-            'apart from its rng positions (the policy or its statistics moved)')
+            'Misguided(BanditEpsilon|BanditUCB, reward flipped / shifted below 0), Corral (base sets [Eps], [Fixed,Random], [Eps,UCB] x eta '
+            '{.075,1} x T {inf,4} x {importance, off-policy}), seeds {1,2}; step = (action set in {[1,2],[1,2,3],["a"],dense pair,sparse '
+            'pair}, reward in {0,.5,1}, learn mode in {own prediction, next action logged with prob .5, (Corral) next action logged with '
+            'prob .01}); every history up to the depth is explored breadth first on the real learner (replayed from scratch per '
+            'transition), merging histories only on equal complete canonical learner state incl. all rng positions. quick: one fixed '
+            'action set depth 4 (Corral seed 1 only), changing action sets with rewards {0,1} depth 3 (Corral depth 2), seed 1. thorough: '
+            'fixed action set depth 6 (Corral depth 5, and depth 6 with rewards {0,1}); changing action sets depth 3 with the full alphabet '
+            'and depth 4 with rewards {0,1} for seed 1 (Corral: depth 3 with rewards {0,1}, depth 4 over 3 action sets x rewards {0,1} x '
+            '{own, prob .01} for seed 1). A distinct state is non-trivial when the step reaching it changed the learner state apart '
+            'from its rng positions (the policy or its statistics moved)')
     ASSUMPTIONS = [
         'contexts are tied to the action set (None, tuple, str, list, dict): the learners are context-free',
         'a FixedLearner (alone or as a Corral base) is only offered action sets of the length of its pmf (anything else is a caller error)',
@@ -377,9 +380,10 @@ class C16(Check):
     ]
     TECHNIQUE = ('explicit-state breadth-first search over (action set, reward, learn mode) histories of one real learner object, replay from '
                  'scratch per transition, merging on a complete canonical state (all attributes + rng positions); invariants checked on every transition')
-    LEVEL_TEXT = ('Every history of <=4 (thorough <=6) steps over a fixed action set and <=3 (<=4) steps over changing action sets is executed on '
-                  'the real learner for every listed configuration; predict/score/learn outputs and Corral weights are checked on every '
-                  'transition, so the shortest violating history below the bound is found with certainty.')
+    LEVEL_TEXT = ('Every history of <=4 (thorough <=6; Corral 5, and 6 with rewards {0,1}) steps over a fixed action set and <=3 (thorough <=4 with '
+                  'rewards {0,1}; Corral 2 / 3-4) steps over changing action sets is executed on the real learner for every listed configuration; '
+                  'predict/score/learn outputs and Corral weights are checked on every transition, so the shortest violating history below '
+                  'the bound is found with certainty.')
     LEVEL_NOTE = 'small-scope hypothesis: depth <=6, rewards {0,.5,1}, 5 action sets, logged probabilities {.5,.01}, seeds {1,2}; float results compared with 1e-9 (Corral weights 1e-4)'
     MIN_NONTRIVIAL = {'quick': 2000, 'thorough': 20000}
     CASE_TIMEOUT = 1500
@@ -393,9 +397,9 @@ class C16(Check):
         """Plans (each a list of cases, cheap learners first inside a plan):
         quick     F  every configuration (Corral: seed 1) x each action set alone, full step alphabet, depth 4
                   C  seed 1 x all its action sets, rewards {0,1}: others depth 3 (20 steps), Corral depth 2 (30 steps)
-        thorough  F  others depth 6; Corral depth 5, and (seed 1) depth 6 with rewards {0,1}
+        thorough  F  others depth 6; Corral depth 5, and depth 6 with rewards {0,1}
                   C  others: depth 3 full alphabet (30 steps), seed 1 depth 4 with rewards {0,1} (20 steps);
-                     Corral seed 1: depth 3 with rewards {0,1} (30 steps), depth 4 over 3 action sets x rewards {0,1} x {own, tiny}
+                     Corral: depth 3 with rewards {0,1} (30 steps), seed 1 depth 4 over 3 action sets x rewards {0,1} x {own, tiny}
         Every quick case is contained in a thorough case."""
         quick = tier == 'quick'
         cfgs = learner_configs(tier)
@@ -418,7 +422,7 @@ class C16(Check):
                 yield case(d, [s], REWARDS, modes_of(d), 4 if quick else (5 if is_corral(d) else 6))
         if not quick:
             for d in cfgs:
-                if is_corral(d) and seed_of(d) == 1:
+                if is_corral(d):
                     for s in sets_of(d): yield case(d, [s], R01, modes_of(d), 6)
         # -- C: the action set may change between rounds
         for d in cfgs:
@@ -430,9 +434,9 @@ class C16(Check):
             elif not cor:
                 yield case(d, sets, REWARDS, modes_of(d), 3)
                 if seed_of(d) == 1: yield case(d, sets, R01, modes_of(d), 4)
-            elif seed_of(d) == 1:
+            else:
                 yield case(d, sets, R01, modes_of(d), 3)
-                yield case(d, sets[:3], R01, ['own', 'tiny'], 4)
+                if seed_of(d) == 1: yield case(d, sets[:3], R01, ['own', 'tiny'], 4)
 
     # -------------------------------------------------------------- exploration of one case
     def run_case(self, case, acc):
